@@ -27,6 +27,11 @@ def decCancel : String → Option CancelAt
 def decCase : List String → Option Case
   | [f, r, d, b, c] => do
     pure { fetch := ← decFetch f, registered := r == "1", dl := ← decDl d, beh := ← decBeh b, cancel := ← decCancel c }
+  -- sixth token: the dispatch context's own deadline ("none" | "later"). A deadline far later than the task's must
+  -- change nothing, so the expected outcome is that of the five-token case.
+  | [f, r, d, b, c, cdl] => do
+    if cdl != "none" && cdl != "later" then none
+    pure { fetch := ← decFetch f, registered := r == "1", dl := ← decDl d, beh := ← decBeh b, cancel := ← decCancel c }
   | _ => none
 
 def stepLine (s : S) (req resp : List String) : S × List String :=
